@@ -182,6 +182,18 @@ class Provenance:
                 self._go(c, out, seen)
 
 
+def resolve_local(e: Optional[ast.AST], defs: "Defs", depth: int = 0) -> Optional[ast.AST]:
+    """follow a Name through its single local binding (x = <expr>) to the bound expression; anything else unchanged"""
+    while isinstance(e, ast.Name) and depth < 6:
+        vs = defs.values(e.id)
+        if len(vs) == 1 and vs[0][0] == "assign" and vs[0][1] is not None and e.id not in defs.params:
+            e = vs[0][1]
+            depth += 1
+        else:
+            break
+    return e
+
+
 def names_in(e: ast.AST) -> Set[str]:
     return {n.id for n in ast.walk(e) if isinstance(n, ast.Name)}
 
